@@ -184,3 +184,71 @@ theorem wire_discover (c : ConstId) (sub : Int) (hs : (Tables.tables c).iDiscove
     (numDigits_small 255 (by omega))
 
 end MySensors
+
+namespace MySensors
+
+theorem wire_idResponse (c : ConstId) (m : Msg) (sub id : Int) (ha : Accepted c m)
+    (ht : m.type = (Tables.tables c).mtInternal) (hs : (Tables.tables c).iIdResponse = some sub)
+    (hid : 1 ≤ id ∧ id ≤ 254) : Wire c ⟨m.node, m.child, m.type, 0, sub, renderInt id⟩ := by
+  have hf := reply_facts c
+  simp only [replyFacts, Bool.and_eq_true] at hf
+  have hsub := hf.1.1.1.1.1.1.1.1.1.1.1.1.1.1.1.2
+  rw [hs] at hsub
+  simp only [subOk, Bool.and_eq_true, beq_iff_eq, decide_eq_true_eq] at hsub
+  obtain ⟨⟨h1, h2⟩, h3⟩ := hsub
+  have hidd : numDigits id ≤ PyTables.intMaxDigits := numDigits_small id (by omega)
+  obtain ⟨hcarry, hlim⟩ := accepted_facts ha
+  refine ⟨?_, renderInt_carryable id, ?_⟩
+  · have hv := ha.1
+    simp only [validate, headerOk, childOk, typeOk, Bool.and_eq_true, decide_eq_true_eq] at hv ⊢
+    obtain ⟨⟨⟨⟨⟨hn, _⟩, hty⟩, _⟩, _⟩, _⟩ := hv
+    refine ⟨⟨⟨⟨⟨hn, ?_⟩, hty⟩, Or.inl trivial⟩, ?_⟩, ?_⟩
+    · have : m.type = (Tables.tables c).mtInternal ∧
+          (some sub = (Tables.tables c).iIdRequest ∨ some sub = (Tables.tables c).iIdResponse) :=
+        ⟨ht, Or.inr hs.symm⟩
+      simp only [this, and_self, ↓reduceIte]
+    · rw [ht]; exact h1
+    · rw [ht, h2]
+      simp [evalV, evalAll, evalAtom, pyInt_renderInt id hidd, hid.1, hid.2]
+  · exact ⟨hlim.1, hlim.2.1, hlim.2.2.1, numDigits_small 0 (by omega), numDigits_small _ h3⟩
+
+/-- a stream response: the request copied with the response sub-type and a hex payload -/
+theorem wire_streamReply (c : ConstId) (m : Msg) (sub : Int) (p : Str) (ha : Accepted c m)
+    (ht : m.type = (Tables.tables c).mtStream)
+    (hs : (Tables.tables c).stConfigResponse = some sub ∨ (Tables.tables c).stResponse = some sub)
+    (hp : ∀ ch ∈ p, isSpace ch = false ∧ ch ≠ ';') : Wire c ⟨m.node, m.child, m.type, m.ack, sub, p⟩ := by
+  have hf := reply_facts c
+  simp only [replyFacts, Bool.and_eq_true] at hf
+  have hsub : subOk (Tables.tables c) (Tables.tables c).mtStream (some sub) [[.str]] = true := by
+    rcases hs with h | h
+    · rw [← h]; exact hf.1.1.1.1.1.1.1.1.1.1.1.1.1.1.2
+    · rw [← h]; exact hf.1.1.1.1.1.1.1.1.1.1.1.1.1.2
+  simp only [subOk, Bool.and_eq_true, beq_iff_eq, decide_eq_true_eq] at hsub
+  obtain ⟨⟨h1, h2⟩, h3⟩ := hsub
+  obtain ⟨_, hlim⟩ := accepted_facts ha
+  refine ⟨?_, carryable_of_chars p hp, ?_⟩
+  · have hv := ha.1
+    simp only [validate, headerOk, childOk, typeOk, Bool.and_eq_true, decide_eq_true_eq] at hv ⊢
+    obtain ⟨⟨⟨⟨⟨hn, hch⟩, hty⟩, hack⟩, _⟩, _⟩ := hv
+    have hne : (Tables.tables c).mtInternal ≠ (Tables.tables c).mtStream := by
+      simpa using hf.1.1.1.1.1.1.1.1.1.1.2
+    have n1 : ¬ (m.type = (Tables.tables c).mtInternal ∧
+        (some m.sub = (Tables.tables c).iIdRequest ∨ some m.sub = (Tables.tables c).iIdResponse)) := by
+      intro h; rw [ht] at h; exact hne h.1.symm
+    have n2 : ¬ (m.type = (Tables.tables c).mtInternal ∧
+        (some sub = (Tables.tables c).iIdRequest ∨ some sub = (Tables.tables c).iIdResponse)) := by
+      intro h; rw [ht] at h; exact hne h.1.symm
+    simp only [n1, ↓reduceIte] at hch
+    refine ⟨⟨⟨⟨⟨hn, ?_⟩, hty⟩, hack⟩, ?_⟩, ?_⟩
+    · simp only [n2, ↓reduceIte]; exact hch
+    · rw [ht]; exact h1
+    · rw [ht, h2]; rfl
+  · exact ⟨hlim.1, hlim.2.1, hlim.2.2.1, hlim.2.2.2.1, numDigits_small _ h3⟩
+
+/-- a set command built by `createSetMessage` -/
+theorem wire_created (g : GW) (node child : Int) (vt : Option Int) (value : Str) (ack : Int) (msg : Msg)
+    (hm : createSetMessage g node child vt value ack = .ok msg) (hc : carryable value) : Wire g.const msg := by
+  obtain ⟨vti, _, hm', hv, he⟩ := createSetMessage_node _ _ _ _ _ _ _ hm
+  refine ⟨hv, by rw [hm']; exact hc, (encode_isSome_iff msg).mp he⟩
+
+end MySensors
